@@ -5,7 +5,10 @@ package mailbox
 import (
 	"bytes"
 	"encoding/binary"
+	"errors"
 	"io"
+
+	"github.com/btcsuite/btcd/btcec/v2"
 )
 
 // This file is only compiled with the `verif` build tag. It lets a monitoring
@@ -77,4 +80,49 @@ func (b *Machine) VerifDoHandshakeHostileAct2(rw io.ReadWriter,
 	}
 
 	return nil
+}
+
+// verifPubOnlyKey is a static key of which only the public half is known.
+type verifPubOnlyKey struct {
+	pub *btcec.PublicKey
+}
+
+func (k *verifPubOnlyKey) PubKey() *btcec.PublicKey { return k.pub }
+
+func (k *verifPubOnlyKey) ECDH(*btcec.PublicKey) ([32]byte, error) {
+	return [32]byte{}, errors.New("no private key")
+}
+
+// VerifForgeKKActOneNoDH returns the act one that an impostor can build from
+// public information alone: it claims the static key claimed (of which it has
+// no private half), addresses the responder whose static key is responder,
+// sends a fresh ephemeral key and leaves every Diffie-Hellman result out of
+// the key derivation. The transcript hash and the framing are produced by the
+// real code.
+func VerifForgeKKActOneNoDH(version byte, claimed,
+	responder *btcec.PublicKey) ([]byte, error) {
+
+	h, err := newHandshakeState(
+		version, version, KKPattern, true,
+		lightningNodeConnectPrologue, &verifPubOnlyKey{pub: claimed},
+		responder, nil, nil, ephemeralGen,
+	)
+	if err != nil {
+		return nil, err
+	}
+
+	eph, err := btcec.NewPrivateKey()
+	if err != nil {
+		return nil, err
+	}
+
+	var act bytes.Buffer
+	act.WriteByte(version)
+
+	ePub := eph.PubKey().SerializeCompressed()
+	h.mixHash(ePub)
+	act.Write(ePub)
+	act.Write(h.EncryptAndHash(nil))
+
+	return act.Bytes(), nil
 }
